@@ -172,7 +172,7 @@ func (r *Route) TargetConfig(t *Target, addWeight bool) string {
 		s += fmt.Sprintf(" weight %.4f", t.FixedWeight)
 	}
 	if len(t.Tags) > 0 {
-		s += fmt.Sprintf(" tags %q", strings.Join(t.Tags, ","))
+		s += fmt.Sprintf(" tags \"%s\"", strings.Join(t.Tags, ","))
 	}
 	if len(t.Opts) > 0 {
 		var keys []string
